@@ -115,6 +115,8 @@ pub struct Sub {
     pub unsub_after_same_batch_match: bool,
     /// Granted QoS over time: (number of accepted publishes when granted, QoS).
     pub qos_hist: Vec<(usize, u8)>,
+    /// Restored from a saved session (not subscribed on this connection).
+    pub restored: bool,
 }
 
 #[derive(Clone, Debug, PartialEq, Eq)]
@@ -138,6 +140,8 @@ pub struct Will {
 #[derive(Clone, Debug, Default)]
 pub struct Session {
     pub subs: Vec<Sub>,
+    /// Positions could not be determined (ambiguous attribution).
+    pub uncertain: bool,
 }
 
 #[derive(Clone, Debug)]
@@ -336,6 +340,31 @@ impl Spec {
         }
     }
 
+    /// C08: the broker rewinds a saved subscription to `pos` (oldest
+    /// unacknowledged QoS>0 forward). Applied to the saved session, or to the
+    /// connection that has just resumed it (takeover).
+    pub fn set_resume_position(&mut self, client_id: &str, path: &str, pos: usize) {
+        if let Some(sess) = self.saved.get_mut(client_id) {
+            for s in sess.subs.iter_mut() {
+                if s.path == path {
+                    s.pos = pos;
+                }
+            }
+            return;
+        }
+        if let Some(k) = self.by_client.get(client_id).copied() {
+            let conn = &mut self.conns[k];
+            for (si, s) in conn.session.subs.iter_mut().enumerate() {
+                if s.path == path {
+                    s.pos = pos;
+                    for pv in conn.posvecs.iter_mut() {
+                        pv.pos[si] = pos;
+                    }
+                }
+            }
+        }
+    }
+
     pub fn occupant(&self, slot: usize) -> Option<usize> {
         self.slab.get(slot).copied()
     }
@@ -404,6 +433,9 @@ impl Spec {
         });
         {
             let k = self.conns.last_mut().unwrap();
+            if k.session.uncertain {
+                k.unchecked = true;
+            }
             let start: Vec<usize> = k.session.subs.iter().map(|s| s.pos).collect();
             k.posvecs = vec![PosVec {
                 pos: start,
@@ -448,8 +480,23 @@ impl Spec {
         }
         self.groups.retain(|_, g| !g.members.is_empty());
         if !clean {
-            let mut session = std::mem::take(&mut self.conns[c].session);
+            // the connection keeps its copy (forwards still sitting in its
+            // buffer are attributed against it); positions of the saved
+            // copy are those of the only possible assignment, if there is one
+            let mut session = self.conns[c].session.clone();
+            let certain = self.conns[c].posvecs.len() == 1 && !self.conns[c].unchecked;
+            if certain {
+                for (si, s) in session.subs.iter_mut().enumerate() {
+                    s.pos = self.conns[c].posvecs[0].pos[si];
+                }
+            }
+            session.uncertain = !certain;
             session.subs.retain(|s| !s.gone && s.end.is_none());
+            for s in session.subs.iter_mut() {
+                // no retained replay on resume
+                s.retained_t0 = None;
+                s.restored = true;
+            }
             self.saved.insert(client_id, session);
         } else {
             self.saved.remove(&client_id);
@@ -690,6 +737,7 @@ impl Spec {
                                 first_live_seen: false,
                                 unsub_after_same_batch_match: false,
                                 qos_hist: vec![(t0, *qos)],
+                                restored: false,
                             });
                             for pv in self.conns[c].posvecs.iter_mut() {
                                 pv.pos.push(pos);
